@@ -235,7 +235,11 @@ class Regex:
         if type(target) not in _RE_TYPES:
             raise MatchError(
                 "{0!r} not valid as a Regex target -- expected {1!r}", type(target), _RE_TYPES)
-        match = self.match_func(target)
+        try:
+            match = self.match_func(target)
+        except TypeError:  # a str pattern on a bytes target, or the reverse
+            raise MatchError(
+                "{0!r} not valid as a target of pattern {1!r}", type(target), self.pattern)
         if not match:
             raise MatchError("target did not match pattern {0!r}", self.pattern)
         scope.update(match.groupdict())
